@@ -34,6 +34,14 @@ Notation d_tree := (d_tree xml bytes kid par FIXED).
 Notation view := (view xml bytes kid par proj mask).
 Notation d_clone := (d_clone xml bytes kid ser par FIXED).
 
+Lemma lookup_wrappers : forall fx n (l : list (name * option xml)) y, lookup n (wrappers xml fx l) <> Some (Some y).
+Proof.
+  intros fx n l y. unfold wrappers. destruct (fx43 fx); [|cbn; discriminate].
+  induction l as [|[k v] l IH]; cbn; [discriminate|]. destruct (n =? k); [discriminate|exact IH].
+Qed.
+Lemma keys_wrappers : forall fx n (l : list (name * option xml)), In n (map fst (wrappers xml fx l)) -> In n (map fst l).
+Proof. intros fx n l. unfold wrappers. destruct (fx43 fx); [rewrite map_map; cbn; auto|intros []]. Qed.
+
 Lemma view_of_obs : forall fs fs' (d d' : document),
   (forall n, dB fs' d' n = dB fs d n) -> (forall n, is_xml n = true -> dX fs' d' n = dX fs d n) ->
   forall n, view fs' d' n = view fs d n.
@@ -86,10 +94,15 @@ Proof.
   assert (Hkeys : forall m, is_xml m = false -> ~ In m (map fst (xps _ _ d1))).
   { intros m Hm X. rewrite (wfd_x _ _ _ _ _ W1 m X) in Hm. discriminate. }
   split; [|split; [exact A5|]].
-  - intros fs'. constructor; cbn [cont xps]; [apply A4|intros n []|intros n x L; discriminate].
+  - intros fs'. constructor; cbn [cont xps]; [apply A4|intros n Hn; apply (wfd_x _ _ _ _ _ W); apply (keys_wrappers FIXED n _ Hn)|intros n x L; exfalso; exact (lookup_wrappers FIXED n _ x L)].
   - split; [|split].
     + intros n Hn. unfold Pkgproof.dB at 1. cbn [cont]. rewrite (A9 n (Hkeys n Hn)), C5. reflexivity.
-    + intros n Hn. unfold Pkgproof.dX at 1. cbn [xps lookup]. unfold Pkgproof.dB. cbn [cont].
+    + intros n Hn. unfold Pkgproof.dX at 1. cbn [xps].
+      assert (Hw : match lookup n (wrappers xml FIXED (xps _ _ d)) with Some (Some x0) => Some x0
+                   | _ => match dB fs (mkD cl2 (wrappers xml FIXED (xps _ _ d))) n with Some b => Some (par b) | None => None end end
+                   = match dB fs (mkD cl2 (wrappers xml FIXED (xps _ _ d))) n with Some b => Some (par b) | None => None end).
+      { pose proof (lookup_wrappers FIXED n (xps _ _ d)) as Q. destruct (lookup n (wrappers xml FIXED (xps _ _ d))) as [[x0|]|]; [exfalso; exact (Q x0 eq_refl)|reflexivity|reflexivity]. }
+      rewrite Hw. unfold Pkgproof.dB. cbn [cont].
       destruct (in_dec Z.eq_dec n (map fst (xps _ _ d1))) as [Hi|Hi].
       * destruct (dX fs d n) as [x|] eqn:Dx.
         -- rewrite (A8 n Hi x Dx), par_ser. reflexivity.
